@@ -126,26 +126,26 @@ TABLE = {
             "Scheduling model read off CommandManager (newest request first, one generator step per tick, commands orphaned "
             "by _stop_interpreter); calls outside the domain have only the tabulated effects (evidence.call_model); timed waits "
             "are nondeterministic. set_error_state from a stopped engine breaks the invariant but is outside the property's "
-            "quantifier (recorded by the thorough tier as observation). The execution order of the commands due in one tick (newest first / appended / stable sort by a name predicate) is extracted from CommandManager.execute_commands, not assumed; an unrecognised reordering exits 2. Gating written as a module-level lookup table keyed by command is evaluated as well; (R06d) the invariant is also explored with two user requests per tick gap."),
+            "quantifier (recorded by the thorough tier as observation). The execution order of the commands due in one tick (newest first / appended / stable sort by a name predicate) is extracted from CommandManager.execute_commands, not assumed; an unrecognised reordering exits 2. Gating written as a module-level lookup table keyed by command is evaluated as well; (R06d) the invariant is also explored with two user requests per tick gap. Bound: union of the coarse scheduler with one request per tick gap and the exact scheduler of execute_commands with two (quick) / three (thorough) requests per gap."),
     "C07": ("abstract interpretation of update_calculated_tags over System State + sibling rule and model check for the Block/Scope Time gate + run-start sibling agreement",
             "Which System States let Process/Run Time advance is computed by interpreting update_calculated_tags for every "
             "state; the Block/Scope Time gate table is extracted from tags_impl and every site that leaves Running must emit a "
             "closing signal (confirmed on the extracted run-state machine with faults); Start and the last segment of "
             "Restart must perform the same resets.",
-            "Numeric increments and threshold timing are not decided. Hold and the error pause emit no signal today (open known findings). Also decided (R07d): the emit_* methods the clock gate depends on reach their fan-out loop on every path (delivery is unconditional), which is the call model the machine uses. R07a also reports every write of a run clock other than the per-tick increment and the reset at run start."),
+            "Numeric increments and threshold timing are not decided. Hold and the error pause emit no signal today (open known findings). Also decided (R07d): the emit_* methods the clock gate depends on reach their fan-out loop on every path (delivery is unconditional), which is the call model the machine uses. R07a also reports every write of a run clock other than the per-tick increment and the reset at run start. Bound: union of the coarse scheduler with one request per tick gap and the exact scheduler of execute_commands with two (quick) / three (thorough) requests per gap."),
     "C08": ("reachability/ordering on the extracted run-state machine with ghost variables for output tags and hardware + structural pause-site rule",
             "Ghost variables follow whether the output tags hold live or safe values and what was last written to the "
             "hardware; engine start, every completing Stop and every pause state are checked; every pause site must apply the "
             "safe state; Engine.tick evaluated with paused=True must not reach UOD command execution; hardware writes in engine "
             "code must be guarded by _runstate_started.",
             "What UOD callbacks compute is not modelled (any executing UOD command may write any output). Three design-level "
-            "violations are open known findings (dead start-up write, error pause without safe state, UOD commands run while paused)."),
+            "violations are open known findings (dead start-up write, error pause without safe state, UOD commands run while paused). Bound: union of the coarse scheduler with one request per tick gap and the exact scheduler of execute_commands with two (quick) / three (thorough) requests per gap."),
     "C09": ("captured-state kill rule (structural, per generator segment) + model check of restores on the extracted run-state machine",
             "Every function that ends a pause or crosses a run boundary must clear or consume Engine._prev_state within the "
             "same generator segment; Pause must not capture over an outstanding capture; writers of _prev_state are "
             "enumerated; on the extracted machine (with error pauses) no reachable Unpause restores a capture from an "
             "earlier run, an already-undone pause, or safe values captured during a pause.",
-            "Decides that a capture cannot outlive its pause; equality of the restored tag values is value-level and not decided. Also decided (R09e): _apply_safe_state captures the pre-value of every safe-valued write register on every loop path, before overwriting it, and returns exactly that collection; _apply_state restores every captured tag unconditionally (the call model the machine uses). The machine also reports a pause that ends with the applied safe values left in place (nothing restored)."),
+            "Decides that a capture cannot outlive its pause; equality of the restored tag values is value-level and not decided. Also decided (R09e): _apply_safe_state captures the pre-value of every safe-valued write register on every loop path, before overwriting it, and returns exactly that collection; _apply_state restores every captured tag unconditionally (the call model the machine uses). The machine also reports a pause that ends with the applied safe values left in place (nothing restored). Bound: union of the coarse scheduler with one request per tick gap and the exact scheduler of execute_commands with two (quick) / three (thorough) requests per gap."),
     "C10": ("ordered must-call sets on the CFGs of Stop/Restart + class-hierarchy walk of on_stop overrides",
             "Stop._run and Restart._run must call cancel_all_commands(self.name) -> tracking.disable -> emit_on_stop -> "
             "clear_run_id -> _stop_interpreter in dominance order (Restart then, after a yield, set_run_id -> enable -> "
@@ -157,7 +157,7 @@ TABLE = {
             "instance; initialize only when not initialised and before execute; finalize only through guarded sites; from "
             "create_command every path to any exit (normal or raising, under the typestate of a fresh instance) must pass "
             "execute or a finalisation; finalize must dispose.",
-            "Decides the lifecycle structure of the command manager; exceptions thrown by UOD callbacks during finalisation are not decided. R11a classifies cancel sites by their guard (same name / both names in one declared overlap list, directly or through a relation on the uod whose construction must accumulate over the declared lists)."),
+            "Decides the lifecycle structure of the command manager; exceptions thrown by UOD callbacks during finalisation are not decided. R11a classifies cancel sites by their guard (same name / both names in one declared overlap list, directly or through a relation on the uod whose construction must accumulate over the declared lists). Also decided (R11e): every instance handed to the unguarded finalize() of _finalize_command comes from a lookup in (or creation into) the registries finalize() removes instances from, unless the finalisation is idempotent."),
     "C12": ("check-before-mutate dominance + sibling agreement of cancel/force handlers + flag-consultation audit of interpreter waiting loops",
             "Record states Cancelled/Forced must not be reachable from a refused node.cancel()/force(); no caller may "
             "disable that check; flags are set only when offered; cancel_instruction and force_instruction must both "
@@ -176,7 +176,7 @@ TABLE = {
             "hold for every method text and schedule because they are facts about all paths of the tick.",
             "Decides the error discipline, not the absence of exceptions from partial builtins on runtime values, user UOD "
             "callbacks, or RecursionError on deep programs; hardware-layer implementations are exempt by the property's "
-            "assumption (hardware answers in its declared domain)."),
+            "assumption (hardware answers in its declared domain). The escape audit also counts next()/max()/min() without a fallback as raise sites (StopIteration/ValueError)."),
     "C15": ("ownership/append-only rules for record states and their clock, must-pass-through for the sort, id ownership dataflow, "
             "and a finite path enumeration of the run-log state loop per record-state enum member",
             "Record states are appended only by RuntimeRecord._add_state, called only from Tracking with Tracking's tick "
@@ -226,7 +226,7 @@ TABLE = {
             "necessary conditions for 'continues as if loaded from the start' that hold for every edit history.",
             "Equality of an edited run with a fresh run is out of static reach. R01b and R01c are violated today (the hot-swap "
             "visitor never finds the root; merge installs a state-less program): open known findings, not repairable without "
-            "breaking baseline tests that depend on the re-execution."),
+            "breaking baseline tests that depend on the re-execution. Also decided (R01e): the started/executed ids that feed the lock set are collected over a complete traversal of the program (opstatic/traversal.py: no class test decides membership, with the call's constant arguments bound), and extract/apply_tree_state visit every node."),
     "C02": ("dispatch-table exhaustiveness + dominance checks in the child iteration and the generic visit",
             "Every node class the parser can emit has a visit_<Class> on PInterpreter's MRO, every interpreter command and "
             "engine command name has a handler/class; child_index is incremented once, after the child's generator; completed "
@@ -237,7 +237,7 @@ TABLE = {
             "Wait/Pause/Hold must agree; the threshold comparison must be '<'(scope clock, node.threshold) with the clock "
             "selected by the Block tag and the provider's (main, block) tuple order consistent end to end.",
             "The timing clauses (no later than the first tick, one tick interval) relate two runtime clocks and are not decided; "
-            "an unrecognised rewrite of the anchors yields exit 2, never a violation. Built as role-based dataflow (no local-name matching); a threshold operand that comes from a helper memoised under an incomplete key is a violation, any other helper exits 2."),
+            "an unrecognised rewrite of the anchors yields exit 2, never a violation. Built as role-based dataflow (no local-name matching); a threshold operand that comes from a helper memoised under an incomplete key is a violation, any other helper exits 2. Also decided (R03c): the start operand of Wait / timed Pause / timed Hold has the waiting loop's clock as its only source (helper returns followed) and the node's reset clears it."),
     "C04": ("dominance / post-dominance rules on the Watch and Alarm visitors and on the block-end sites",
             "The body invocation is reachable only through the activation loop's exit; activation is written only under forced "
             "or a true condition and never for a cancelled node; a cancelled Watch leaves the wait loop before trying to "
@@ -248,7 +248,7 @@ TABLE = {
             "End block and End blocks must perform the same per-block effect set and write the Block tag; the lock-acquired "
             "branch must announce the block before the body; every normal exit releases the lock; completion after the body is "
             "reachable only once block_ended; the lock is taken only when all locked blocks are ancestors.",
-            "The single-chain invariant over all reachable interpreter states and which block `End block` picks are data-dependent and not decided."),
+            "The single-chain invariant over all reachable interpreter states and which block `End block` picks are data-dependent and not decided. R05c is role-based and also requires the set of locked blocks to be read from the lock flags at decision time; a stored snapshot must be refreshed by the statement that takes the lock."),
     "C14": ("lookup-domain agreement rule for interrupts + effect check of inject_node + guard check of the interpreter tick",
             "Every node handed to _register_interrupt must be findable where the live-edit merge looks interrupts up (the "
             "program tree) or the merge must consult the injected-node registry; inject_node may not write method progress; "
